@@ -53,6 +53,9 @@ const R_ALL: &[(&str, Fm)] = &[
     ("||b\u{fc}cher.example^", Fm::Std),
     // --- network: options
     ("foo$domain=example.com", Fm::Std),
+    // one domain in two spellings (the duplicate survives parsing: entries are de-duplicated as text)
+    ("foo$script,domain=Example.com|example.com|tracker.co.uk", Fm::Std),
+    ("bar$image,domain=~b\u{fc}cher.example|~xn--bcher-kva.example", Fm::Std),
     ("*$domain=example.com|tracker.co.uk", Fm::Std),
     ("bar$domain=~example.com", Fm::Std),
     // pattern-less rules: one bucket per listed domain (a shared Arc), next to a rule that the
